@@ -80,6 +80,8 @@ struct StallShared {
     uni: Vec<Vec<u8>>,
     bi: Vec<Vec<u8>>,
     dgrams: Vec<Vec<u8>>,
+    /// was all healthy traffic delivered before the raw peer started the close
+    in_time: Option<bool>,
 }
 
 #[derive(Clone, Copy, PartialEq, Eq, Debug)]
@@ -369,8 +371,11 @@ async fn stall(a: &[String]) -> Vec<String> {
             // a dropped send half would be finished implicitly
             keep.push(Box::new(send));
         }
-        // wait for the healthy traffic (at most STALL_SETTLE_MS), then the clean close
+        // wait for the healthy traffic (at most STALL_SETTLE_MS), then the clean close; `in_time`:
+        // everything healthy was delivered while the stalled streams were still stalled and the
+        // session still up (what is delivered only once the close tears everything down is late)
         let t0 = Instant::now();
+        let mut in_time = true;
         loop {
             {
                 let s = lock(&sh);
@@ -381,10 +386,12 @@ async fn stall(a: &[String]) -> Vec<String> {
                 }
             }
             if t0.elapsed() >= Duration::from_millis(STALL_SETTLE_MS) {
+                in_time = false;
                 break;
             }
             tokio::time::sleep(Duration::from_millis(10)).await;
         }
+        lock(&sh).in_time = Some(in_time);
         if hold_ms > 0 {
             tokio::time::sleep(Duration::from_millis(hold_ms)).await;
             let mut b = wire::wt_uni_preamble(0);
@@ -467,6 +474,10 @@ async fn stall(a: &[String]) -> Vec<String> {
         let n = usize::from(s.uni.contains(&stall_uni_payload(9))) + usize::from(s.bi.contains(&stall_bi_payload(9)));
         obs.push(format!("after_hold={n}/2"));
     }
+    obs.push(match lock(&shared).in_time {
+        Some(b) => format!("in_time={b}"),
+        None => "in_time=-".to_string(),
+    });
     if let Some(e) = err {
         obs.push(format!("err={e}"));
     }
